@@ -26,6 +26,8 @@ Definition ops0 : list op :=
     Tx "bob" "PM" (WPm (PmSwap "uusd" None (Some 500000000000000000) None "o.a")) [("uom", 5000001)];
     Tx "carol" "PM" (WPm (PmProvide None (Some 500000000000000000) None "o.a" None None)) [("uusd", 80001)];
     BankSendOp "bob" "PM" [("uusdc", 77)];
+    Tx "carol" "PM" (WPm (PmCreatePool ["uusdc"; "uusd"] [6; 6] fees0 ConstantProduct (Some "b"))) [("uom", 1000); ("uusd", 1000)];   (* a second pool *)
+    Tx "owner" "PM" (WPm (PmUpdateConfig None None None (Some {| ft_pool := "o.b"; ft_swaps := Some false; ft_deposits := None; ft_withdrawals := None |}))) [];
     Tx "bob" "PM" (WPm (PmProvide None None None "o.a" (Some 86400) None)) [("uom", 1000000); ("uusd", 2000000)];
     Tx "alice" "FM" (WFm (FmPosCreate (Some "p") 86400 None)) [(lp0, 500000)];
     Tx "carol" "FM" (WFm (FmCreateFarm {| fp_lp := lp0; fp_start := Some 1; fp_end := Some 5; fp_asset := ("uusdc", 4000); fp_id := Some "f" |}))
@@ -69,6 +71,8 @@ Definition core0 : list op :=
   [ Tx "bob" "PM" (WPm (PmSwap "uusd" None (Some 500000000000000000) None "o.a")) [("uom", 5000001)];
     Tx "carol" "PM" (WPm (PmProvide None (Some 500000000000000000) None "o.a" None None)) [("uusd", 80001)];
     BankSendOp "bob" "PM" [("uusdc", 77)];
+    Tx "carol" "PM" (WPm (PmCreatePool ["uusdc"; "uusd"] [6; 6] fees0 ConstantProduct (Some "b"))) [("uom", 1000); ("uusd", 1000)];   (* a second pool *)
+    Tx "owner" "PM" (WPm (PmUpdateConfig None None None (Some {| ft_pool := "o.b"; ft_swaps := Some false; ft_deposits := None; ft_withdrawals := None |}))) [];
     Tx "bob" "PM" (WPm (PmProvide None None None "o.a" (Some 86400) None)) [("uom", 1000000); ("uusd", 2000000)];   (* locked in the farm manager *)
     Tx "bob" "PM" (WPm (PmRoute [{| so_in := "uusd"; so_out := "uom"; so_pool := "o.a" |}] None None (Some 500000000000000000))) [("uusd", 3000)];
     Tx "carol" "PM" (WPm (PmSwap "uom" None (Some 1) None "o.a")) [("uusd", 900000000)];     (* rejected: slippage *)
@@ -79,7 +83,7 @@ Definition ledger_statement : Prop :=
     let w1 := run w0 setup0 in
     good_run w1 core0 /\ asset_denom "uusd" /\ asset_denom "uusdc" /\ asset_denom "uom" /\
     ledger w1 core0 "uusd" = 1 /\ ledger w1 core0 "uusdc" = 77 /\ ledger w1 core0 "uom" = 0 /\
-    map (fun o => snd (step w1 o)) [nth 5 core0 (SetFault 0)] <> [] .
+    map (fun o => snd (step w1 o)) [nth 7 core0 (SetFault 0)] <> [] .
 
 Lemma asset_denom_u s : asset_denom ("u" ++ s).
 Proof. intros id C. unfold lp_of_id in C. cbn in C. discriminate. Qed.
@@ -93,7 +97,11 @@ Proof.
   split.
   - apply good_run_intro.
     + apply run_lp_inv. rewrite Hw. intros id p H. vm_compute in H. discriminate.
+    + apply run_pool_custody; [unfold setup0, ops0; cbn [firstn]; repeat constructor; try discriminate; exact I|].
+      apply (genesis_pool_custody g0 w0 E); [cbn; lia | constructor; [intros []|constructor] | intros f [<-|[]]; cbn; unfold HALF_U128; lia | cbn; unfold HALF_U128; lia].
     + unfold core0. repeat constructor; try discriminate.
+      intros d. cbn [BankProofs.camt denom_of amount_of fst snd]. unfold U128_MAX. destruct (String.eqb "uom" d), (String.eqb "uusd" d); lia.
+    + unfold core0. repeat constructor; try discriminate; exact I.
     + rewrite Hw. clear. vm_compute. reflexivity.
   - split; [apply (asset_denom_u "usd")|]. split; [apply (asset_denom_u "usdc")|]. split; [apply (asset_denom_u "om")|].
     rewrite Hw. clear. vm_compute. repeat split; try reflexivity. discriminate.
